@@ -16,7 +16,7 @@ Module for utilities.
 import sys
 import copy as cp
 from typing import Any, List, Optional, Text
-from threading import Timer
+from threading import Timer, RLock
 from time import time
 from datetime import timedelta
 
@@ -230,6 +230,8 @@ class ProgressBar(BaseProgress):
     def __init__(self, max_value, title = None):
         """Create a ProgressBar object. """
         self._timer = None
+        self._timer_lock = RLock()
+        self._stopped = False
         self._start_time = time()
         self._file = sys.stdout
         self.max_value = max_value
@@ -241,8 +243,10 @@ class ProgressBar(BaseProgress):
         """Context enter. """
         if self.title is not None:
             print(self.title, file=self._file, flush=True)
-        self._timer = Timer(1.0, self._print_status)
-        self._timer.start()
+        with self._timer_lock:
+            self._stopped = False
+            self._timer = Timer(1.0, self._print_status)
+            self._timer.start()
         return self
 
     def _print_status(self):
@@ -269,7 +273,9 @@ class ProgressBar(BaseProgress):
 
     def exit(self):
         """Context exit. """
-        self._timer.cancel()
+        with self._timer_lock:
+            self._stopped = True
+            self._timer.cancel()
         self._print_status()
         delta_t = time() - self._start_time
         print("\nElapsed time: {:.1f}s".format(delta_t),
@@ -278,9 +284,12 @@ class ProgressBar(BaseProgress):
 
     def update(self, step=None):
         """Update the progress. """
-        self._timer.cancel()
-        self._timer = Timer(1.0, self.update)
-        self._timer.start()
+        with self._timer_lock:
+            if self._stopped:
+                return
+            self._timer.cancel()
+            self._timer = Timer(1.0, self.update)
+            self._timer.start()
         if step is not None:
             self._step = step
         self._print_status()
